@@ -46,6 +46,17 @@ type c17cScenario struct {
 	Pods       []c17cPod `json:"pods"`
 	// Prices: per instance type; CPUs: per instance type
 	Unavailable []string `json:"unavailable,omitempty"` // it@zone offerings that are not available
+	// DeletingNode: a second node (node-y) is marked for deletion; holds whose consumers all run there are released
+	DeletingNode bool `json:"deletingNode,omitempty"`
+	// Holds: per device allocated in the cluster, the claims holding it
+	Holds map[string][]c17cHold `json:"holds,omitempty"`
+}
+
+// c17cHold is one allocated ResourceClaim holding (a share of) a device: reserved for a live pod, for a pod on the
+// deleting node, or for one of each.
+type c17cHold struct {
+	Qty  int    `json:"qty,omitempty"` // consumed capacity (shared devices)
+	Kind string `json:"kind"`          // live | deleting | mixed
 }
 
 func drawC17c(t *rapid.T) *c17cScenario {
@@ -75,6 +86,26 @@ func drawC17c(t *rapid.T) *c17cScenario {
 			p.IT = rapid.SampledFrom([]string{"it-a", "it-b", "it-c"}).Draw(t, "it")
 		}
 		s.Pods = append(s.Pods, p)
+	}
+	s.DeletingNode = dpct(t, 40, "deletingNode")
+	s.Holds = map[string][]c17cHold{}
+	kind := func() string {
+		if !s.DeletingNode {
+			return "live"
+		}
+		return rapid.SampledFrom([]string{"live", "deleting", "deleting", "mixed"}).Draw(t, "holdKind")
+	}
+	for _, k := range s.D.PreExclusive {
+		s.Holds[k] = []c17cHold{{Kind: kind()}}
+	}
+	for _, k := range sortedKeys(s.D.PreMem) {
+		q := s.D.PreMem[k]
+		if q >= 2 && rapid.Bool().Draw(t, "splitHold") {
+			first := rapid.IntRange(1, q-1).Draw(t, "splitQty")
+			s.Holds[k] = []c17cHold{{Qty: first, Kind: kind()}, {Qty: q - first, Kind: kind()}}
+		} else {
+			s.Holds[k] = []c17cHold{{Qty: q, Kind: kind()}}
+		}
 	}
 	for _, it := range []string{"it-a", "it-b", "it-c"} {
 		for _, z := range []string{"z1", "z2", "z3"} {
@@ -135,28 +166,60 @@ func execC17c(s *c17cScenario, c *ev.Ctx) {
 	for _, rc := range wd.claims {
 		w.Apply(rc.DeepCopy())
 	}
-	// in-cluster allocations: claims allocated to running pods elsewhere
-	held := 0
-	hold := func(key string, consumed int) {
-		held++
-		id := c17bDevID(key)
-		res := resourcev1.DeviceRequestAllocationResult{Request: "r0", Driver: id.Driver.Value(), Pool: id.Pool.Value(), Device: id.Device.Value()}
-		if consumed > 0 {
-			res.ConsumedCapacity = map[resourcev1.QualifiedName]resource.Quantity{"mem": c17bQty(consumed)}
-			res.ShareID = ptrTo(types.UID(fmt.Sprintf("share-%d", held)))
-		}
-		rc := &resourcev1.ResourceClaim{ObjectMeta: metav1.ObjectMeta{Name: fmt.Sprintf("held-%d", held), Namespace: "default"}}
-		rc.Status.Allocation = &resourcev1.AllocationResult{Devices: resourcev1.DeviceAllocationResult{Results: []resourcev1.DeviceRequestAllocationResult{res}}}
-		rc.Status.ReservedFor = []resourcev1.ResourceClaimConsumerReference{{Resource: "pods", Name: fmt.Sprintf("holder-%d", held), UID: types.UID(fmt.Sprintf("holder-uid-%d", held))}}
-		w.Apply(rc)
-	}
-	for _, k := range s.D.PreExclusive {
-		hold(k, 0)
-	}
-	for _, k := range sortedKeys(s.D.PreMem) {
-		hold(k, s.D.PreMem[k])
+	// in-cluster allocations: claims allocated to running pods; some of those pods run on a node that is being deleted
+	var deletingNode *sim.BuiltNode
+	if s.DeletingNode {
+		deletingNode = w.ApplyNode(sim.NodeSpec{Name: "node-y", Pool: "np", TypeName: "it-a", Zone: "z2", CT: "on-demand", Stage: sim.StageInitialized, AgeSeconds: 900}, pool)
 	}
 	podClaims := map[string][]string{}
+	held, released := 0, 0
+	stillAllocated := map[string]bool{} // held claims that keep their in-cluster allocation (a live consumer remains)
+	wd.preExclusive, wd.preMem = map[string]bool{}, map[string]int{}
+	for _, key := range sortedKeys(s.Holds) {
+		id := c17bDevID(key)
+		for _, h := range s.Holds[key] {
+			held++
+			res := resourcev1.DeviceRequestAllocationResult{Request: "r0", Driver: id.Driver.Value(), Pool: id.Pool.Value(), Device: id.Device.Value()}
+			if h.Qty > 0 {
+				res.ConsumedCapacity = map[resourcev1.QualifiedName]resource.Quantity{"mem": c17bQty(h.Qty)}
+				res.ShareID = ptrTo(types.UID(fmt.Sprintf("share-%d", held)))
+			}
+			name := fmt.Sprintf("held-%d", held)
+			rc := &resourcev1.ResourceClaim{ObjectMeta: metav1.ObjectMeta{Name: name, Namespace: "default"}}
+			rc.Spec.Devices.Requests = []resourcev1.DeviceRequest{{Name: "r0", Exactly: &resourcev1.ExactDeviceRequest{DeviceClassName: "any", AllocationMode: resourcev1.DeviceAllocationModeExactCount, Count: 1}}}
+			if h.Qty > 0 {
+				rc.Spec.Devices.Requests[0].Exactly.Capacity = &resourcev1.CapacityRequirements{Requests: map[resourcev1.QualifiedName]resource.Quantity{"mem": c17bQty(h.Qty)}}
+			}
+			rc.Status.Allocation = &resourcev1.AllocationResult{Devices: resourcev1.DeviceAllocationResult{Results: []resourcev1.DeviceRequestAllocationResult{res}}}
+			kind := h.Kind
+			if deletingNode == nil || deletingNode.Node == nil {
+				kind = "live"
+			}
+			if kind == "live" || kind == "mixed" {
+				rc.Status.ReservedFor = append(rc.Status.ReservedFor, resourcev1.ResourceClaimConsumerReference{Resource: "pods", Name: fmt.Sprintf("holder-%d", held), UID: types.UID(fmt.Sprintf("holder-uid-%d", held))})
+			}
+			if kind == "deleting" || kind == "mixed" {
+				// a running pod on the node that is being deleted; it is rescheduled by this pass together with its claim
+				hp := &corev1.Pod{ObjectMeta: metav1.ObjectMeta{Name: fmt.Sprintf("migrating-%d", held), Namespace: "default", UID: types.UID(fmt.Sprintf("migrating-uid-%d", held)), Labels: map[string]string{"app": "m"}},
+					Spec: corev1.PodSpec{Containers: []corev1.Container{{Name: "c", Image: "img", Resources: corev1.ResourceRequirements{Requests: corev1.ResourceList{corev1.ResourceCPU: resource.MustParse("250m"), corev1.ResourceMemory: resource.MustParse("128Mi")}, Claims: []corev1.ResourceClaim{{Name: "rc0"}}}}},
+						ResourceClaims: []corev1.PodResourceClaim{{Name: "rc0", ResourceClaimName: &name}}}}
+				w.Apply(sim.Bound(hp, "node-y"))
+				podClaims[hp.Name] = []string{name}
+				rc.Status.ReservedFor = append(rc.Status.ReservedFor, resourcev1.ResourceClaimConsumerReference{Resource: "pods", Name: hp.Name, UID: hp.UID})
+			}
+			w.Apply(rc)
+			stillAllocated[name] = kind != "deleting"
+			if kind == "deleting" {
+				released++
+				continue // every consumer is migrating: the device (or this share of it) is free again
+			}
+			if h.Qty > 0 {
+				wd.preMem[key] += h.Qty
+			} else {
+				wd.preExclusive[key] = true
+			}
+		}
+	}
 	for i, ps := range s.Pods {
 		p := &corev1.Pod{ObjectMeta: metav1.ObjectMeta{Name: fmt.Sprintf("pending-%02d", i), Namespace: "default", UID: types.UID(fmt.Sprintf("pending-uid-%02d", i)), Labels: map[string]string{"app": "a"}},
 			Spec: corev1.PodSpec{Containers: []corev1.Container{{Name: "c", Image: "img", Resources: corev1.ResourceRequirements{Requests: corev1.ResourceList{corev1.ResourceCPU: resource.MustParse(ps.CPU), corev1.ResourceMemory: resource.MustParse("128Mi")}}}}}}
@@ -179,6 +242,9 @@ func execC17c(s *c17cScenario, c *ev.Ctx) {
 		w.Apply(sim.Unschedulable(p))
 	}
 	w.Sync()
+	if deletingNode != nil && deletingNode.NodeClaim != nil {
+		w.Cluster.MarkForDeletion(deletingNode.NodeClaim.Status.ProviderID)
+	}
 	devices := deviceallocation.NewController(w.Client)
 	w.Quiet(func() { devices.Hydrate(w.Ctx) }) // what the controller's first reconcile does; AllocatedDevices blocks until then
 	prov := provisioning.NewProvisioner(w.Client, w.Recorder, w.Provider, w.Cluster, w.Clock, devices, virtualpods.NewVirtualPodCache(w.Client))
@@ -186,7 +252,7 @@ func execC17c(s *c17cScenario, c *ev.Ctx) {
 		err error
 	}{}
 	var meta map[dra.ResourceClaimID]*dra.ResourceClaimAllocationMetadata
-	placedWithClaims, claimsCommitted := 0, 0
+	placedWithClaims, claimsCommitted, migrated := 0, 0, 0
 	w.Quiet(func() {
 		res, err := prov.Schedule(w.Ctx)
 		results.err = err
@@ -219,7 +285,7 @@ func execC17c(s *c17cScenario, c *ev.Ctx) {
 		}
 		claimsCommitted = len(meta)
 		// a placed pod's claims are all allocated: in the cluster already, or by this pass
-		preallocated := map[string]bool{}
+		preallocated := stillAllocated
 		for _, cl := range s.D.Claims {
 			if len(cl.PreallocZones) > 0 {
 				preallocated[cl.Name] = true
@@ -227,6 +293,9 @@ func execC17c(s *c17cScenario, c *ev.Ctx) {
 		}
 		check := func(where string, pods []*corev1.Pod) {
 			for _, p := range pods {
+				if p.Spec.NodeName != "" {
+					migrated++
+				}
 				for _, name := range podClaims[p.Name] {
 					if _, ok := res.DRAClaimAllocationMetadata[types.NamespacedName{Namespace: "default", Name: name}]; !ok && !preallocated[name] {
 						c.Violate("pod-placed-without-device-allocation", "pod %s is placed on %s, but its claim %s was not allocated in this pass and is not allocated in the cluster", p.Name, where, name)
@@ -255,16 +324,18 @@ func execC17c(s *c17cScenario, c *ev.Ctx) {
 	c.ClassIf(claimsCommitted >= 2, "two_claims_allocated")
 	c.ClassIf(contested, "contested_pool")
 	c.ClassIf(held > 0, "devices_held_in_cluster")
+	c.ClassIf(released > 0, "hold_released_by_deleting_pods")
+	c.ClassIf(migrated > 0, "migrating_pod_placed")
 	c.NTIf(claimsCommitted >= 2 && contested)
 	c.Sample(map[string]any{"pods": len(s.Pods), "claims_allocated": claimsCommitted, "nodeclaims": len(itsOf), "held": held})
 }
 
 var propC17c = ev.Prop[c17cScenario]{
 	ID: "C17", Test: "TestC17c", Level: "exploration",
-	Rule: "the device population, claims and in-cluster allocations of TestC17b as API objects (ResourceSlices incl. node-owned ones, DeviceClasses, ResourceClaims, allocated claims reserved for running pods), three instance types with device templates and drawn unavailable offerings, an optional existing node (initialized or not), 2-9 pending pods of drawn size referencing 0-2 claims, some pinned to a zone or an instance type; the REAL Provisioner.Schedule with DRA enabled (real deviceallocation controller, gatherResourceSlices / gatherAllocatedDevices, scheduler glue, allocator); " +
+	Rule: "the device population, claims and in-cluster allocations of TestC17b as API objects (ResourceSlices incl. node-owned ones, DeviceClasses, ResourceClaims, allocated claims reserved for running pods), three instance types with device templates and drawn unavailable offerings, an optional existing node (initialized or not), an optional node marked for deletion whose pods hold allocated claims, 2-9 pending pods of drawn size referencing 0-2 claims, some pinned to a zone or an instance type; the REAL Provisioner.Schedule with DRA enabled (real deviceallocation controller, gatherResourceSlices / gatherAllocatedDevices, scheduler glue, allocator); " +
 		"oracle: TestC17b's exclusivity / capacity / counter judgement over Results.DRAClaimAllocationMetadata against the instance types every resulting NodeClaim (by its placeholder hostname) or existing node can still be, plus: every placed pod's claims are allocated (by the pass or in the cluster); " +
 		"non-trivial = at least two claims allocated by the pass and two claims holding devices of one pool",
-	Assumptions: []string{"one NodePool, on-demand offerings only", "holders of in-cluster allocations are live pods (deleting-pod release is not generated)", "the placeholder hostname of a scheduling NodeClaim is read by reflection (no hook)"},
+	Assumptions: []string{"one NodePool, on-demand offerings only", "holders of in-cluster allocations are live pods, pods on a node marked for deletion (hold released, claim re-allocated by the pass), or one of each (hold stays)", "the placeholder hostname of a scheduling NodeClaim is read by reflection (no hook)"},
 	Draw:        drawC17c, Exec: execC17c, ReplayTries: 5,
 }
 
